@@ -253,7 +253,7 @@ func checkFunc(P *Program, fn *ssa.Function, c *FuncContract, sweep bool) (rep *
 					if r.st.pc.IsFalse() {
 						continue
 					}
-					pc := &EvalCtx{ex: ex, st: r.st, old: ex.old, vars: map[string]tv{}, pkgPath: c.PkgPath}
+					pc := &EvalCtx{ex: ex, st: r.st, old: ex.old, vars: map[string]tv{}, pkgPath: c.PkgPath, fr: fr}
 					for k, v := range vars {
 						pc.vars[k] = v
 					}
